@@ -366,4 +366,8 @@ def run(tier, replay=None):
                               "that individual's genotype and own reads",
                               {"ploidies": ploidies, "sample": s_, "genotype": list(g), "haplotypes": haps, "impl": got, "model": m2,
                                "counts": ct.tolist()}, "C04/pedigree/family-cache")
+    # ------------------------------------------------------------------ per-sample / option plumbing of the programs (shared observer)
+    if tier != "warm":
+        from . import plumbing
+        plumbing.run_plumbing(chk, C.rng(PROP + ":plumbing"), None, PROP, programs=("assemble", "call", "call-exact"), tier=tier)
     return chk.finish()
